@@ -34,12 +34,14 @@ theorem parseCompact_ok (o : Oracle) (d : Bytes) (msg : Message)
       simp at hp
       exact hp.symm
 
-/-- what one element of `signatures` (or the flattened members) contributes -/
+/-- what one element of `signatures` (or the flattened members) contributes.  `s.nb64` is the
+    entry's OWN b64 setting (protected header's, default when there is none): the first entry sets
+    the message flag, every later entry — with or without a protected header — must agree with it. -/
 structure SigParsed (o : Oracle) (i : Nat) (nb : Bool) (w : Wire) (s : Signature) (nb' : Bool) : Prop where
   decoded : ProtDecoded o s
-  first : ∀ p, s.prot = some p → i = 0 → nb' = p.nb64
-  later : ∀ p, s.prot = some p → i ≠ 0 → p.nb64 = nb ∧ nb' = nb
-  noprot : s.prot = none → nb' = nb ∧ s.rawProtected = []
+  first : i = 0 → nb' = s.nb64
+  later : i ≠ 0 → s.nb64 = nb ∧ nb' = nb
+  noprot : s.prot = none → s.rawProtected = []
   received : ∃ kvs, w = .obj kvs ∧
     (∀ p, s.prot = some p → ∃ ps, Wire.lookup "protected" kvs = some (.str ps) ∧ s.rawProtected = strBytes ps) ∧
     (s.prot = none → Wire.lookup "protected" kvs = none) ∧
@@ -52,7 +54,8 @@ theorem parseSig_ok (o : Oracle) (i : Nat) (nb : Bool) (w : Wire) (s : Signature
   cases w with
   | obj kvs =>
     simp only at h
-    obtain ⟨⟨prot, rawProt, nb1⟩, hprot, h⟩ := PO.run_bind_eq_ok o _ _ _ h
+    obtain ⟨⟨prot, rawProt, nbE⟩, hprot, h⟩ := PO.run_bind_eq_ok o _ _ _ h
+    obtain ⟨nb1, hflag, h⟩ := PO.run_bind_eq_ok o _ _ _ h
     obtain ⟨hdr, hhdr, h⟩ := PO.run_bind_eq_ok o _ _ _ h
     simp only at h
     -- signature member
@@ -67,14 +70,29 @@ theorem parseSig_ok (o : Oracle) (i : Nat) (nb : Bool) (w : Wire) (s : Signature
       simp at h
       obtain ⟨hs_eq, hnb⟩ := h
       subst hnb
+      -- the flag step
+      have hflag' : (i = 0 → nb1 = nbE) ∧ (i ≠ 0 → nbE = nb ∧ nb1 = nb) := by
+        by_cases hi : i = 0
+        · simp [hi] at hflag
+          exact ⟨fun _ => hflag.symm, fun hne => absurd hi hne⟩
+        · have hi' : (i == 0) = false := by simpa using hi
+          simp only [hi', Bool.false_eq_true, if_false] at hflag
+          by_cases hne : (nb != nbE) = true
+          · simp [hne] at hflag
+          · simp only [hne, Bool.false_eq_true, if_false, PO.run_pure] at hflag
+            injection hflag with hflag
+            have : nbE = nb := by
+              cases hx : nbE <;> cases hy : nb <;> simp [hx, hy] at hne <;> rfl
+            exact ⟨fun h0 => absurd h0 hi, fun _ => ⟨this, hflag.symm⟩⟩
       -- protected member
       cases hpm : Wire.lookup "protected" kvs with
       | none =>
         simp [hpm] at hprot
         obtain ⟨rfl, rfl, rfl⟩ := hprot
         subst hs_eq
-        exact ⟨by intro p hp; simp at hp, by intro p hp; simp at hp, by intro p hp; simp at hp,
-          by intro _; simp, kvs, rfl, by intro p hp; simp at hp, by intro _; exact hpm,
+        exact ⟨by intro p hp; simp at hp, fun h0 => by simpa [Signature.nb64] using hflag'.1 h0,
+          fun hne => by simpa [Signature.nb64] using hflag'.2 hne,
+          by intro _; rfl, kvs, rfl, by intro p hp; simp at hp, by intro _; exact hpm,
           ss, hs, rfl, (b64Decode_ok o _ sg).1 hsg⟩
       | some pv =>
         cases pv with
@@ -84,36 +102,18 @@ theorem parseSig_ok (o : Oracle) (i : Nat) (nb : Bool) (w : Wire) (s : Signature
         obtain ⟨raw, hraw, hprot⟩ := PO.run_bind_eq_ok o _ _ _ hprot
         obtain ⟨ph, hph, hprot⟩ := PO.run_bind_eq_ok o _ _ _ hprot
         have hHO := headerOf_of_runs o _ raw ph hraw hph
-        by_cases hi : i = 0
-        · simp [hi] at hprot
-          obtain ⟨rfl, rfl, rfl⟩ := hprot
-          subst hs_eq
-          refine ⟨?_, ?_, ?_, by intro hn; simp at hn, kvs, rfl, ?_, by intro hn; simp at hn,
-            ss, hs, rfl, (b64Decode_ok o _ sg).1 hsg⟩
-          · intro p hp; simp at hp; subst hp; exact hHO
-          · intro p hp _; simp at hp; subst hp; rfl
-          · intro p hp hne; exact absurd hi hne
-          · intro p hp; exact ⟨ps, hpm, rfl⟩
-        · have hi' : (i == 0) = false := by simpa using hi
-          simp only [hi', Bool.false_eq_true, if_false] at hprot
-          by_cases hne : (nb != ph.nb64) = true
-          · simp [hne] at hprot
-          · simp only [hne, Bool.false_eq_true, if_false, PO.run_pure] at hprot
-            injection hprot with hprot
-            simp at hprot
-            obtain ⟨rfl, rfl, rfl⟩ := hprot
-            subst hs_eq
-            have hnbeq : ph.nb64 = nb := by
-              cases hx : ph.nb64 <;> cases hy : nb <;> simp [hx, hy] at hne <;> rfl
-            refine ⟨?_, ?_, ?_, by intro hn; simp at hn, kvs, rfl, ?_, by intro hn; simp at hn,
-              ss, hs, rfl, (b64Decode_ok o _ sg).1 hsg⟩
-            · intro p hp; simp at hp; subst hp; exact hHO
-            · intro p hp h0; exact absurd h0 hi
-            · intro p hp _; simp at hp; subst hp; exact ⟨hnbeq, rfl⟩
-            · intro p hp; exact ⟨ps, hpm, rfl⟩
+        simp only [PO.run_pure] at hprot
+        injection hprot with hprot
+        simp at hprot
+        obtain ⟨rfl, rfl, rfl⟩ := hprot
+        subst hs_eq
+        refine ⟨?_, fun h0 => by simpa [Signature.nb64] using hflag'.1 h0,
+          fun hne => by simpa [Signature.nb64] using hflag'.2 hne,
+          by intro hn; simp at hn, kvs, rfl, ?_, by intro hn; simp at hn,
+          ss, hs, rfl, (b64Decode_ok o _ sg).1 hsg⟩
+        · intro p hp; simp at hp; subst hp; exact hHO
+        · intro p hp; exact ⟨ps, hpm, rfl⟩
   | _ => simp at h
-
-
 
 /-- element-wise relation between two lists of equal length -/
 inductive Zip2 {α β : Type} (R : α → β → Prop) : List α → List β → Prop
@@ -145,7 +145,7 @@ theorem parseSigs_cons (o : Oracle) (i : Nat) (nb : Bool) (w : Wire) (rest : Lis
 theorem parseSigs_later (o : Oracle) :
     ∀ (l : List Wire) (i : Nat) (nb : Bool) (ss : List Signature) (nb' : Bool), i ≠ 0 →
       (parseSigs i nb l).run o = .ok (ss, nb') →
-      nb' = nb ∧ (∀ s ∈ ss, ProtDecoded o s) ∧ (∀ s ∈ ss, ∀ p, s.prot = some p → p.nb64 = nb) ∧
+      nb' = nb ∧ (∀ s ∈ ss, ProtDecoded o s) ∧ (∀ s ∈ ss, s.nb64 = nb) ∧
       Zip2 (fun w s => ∃ i nb nb', SigParsed o i nb w s nb') l ss := by
   intro l
   induction l with
@@ -158,10 +158,7 @@ theorem parseSigs_later (o : Oracle) :
     intro i nb ss nb' hi h
     obtain ⟨s, nb1, ss', h1, h2, rfl⟩ := parseSigs_cons o i nb w rest ss nb' h
     have sp := parseSig_ok o i nb w s nb1 h1
-    have hnb1 : nb1 = nb := by
-      cases hp : s.prot with
-      | none => exact (sp.noprot hp).1
-      | some p => exact (sp.later p hp hi).2
+    have hnb1 : nb1 = nb := (sp.later hi).2
     subst hnb1
     obtain ⟨e, hd, hc, hf⟩ := ih (i + 1) nb1 ss' nb' (by omega) h2
     refine ⟨e, ?_, ?_, Zip2.cons ⟨i, nb1, nb1, sp⟩ hf⟩
@@ -169,15 +166,15 @@ theorem parseSigs_later (o : Oracle) :
       cases hm with
       | head => exact sp.decoded
       | tail _ hm => exact hd s' hm
-    · intro s' hm p hp
+    · intro s' hm
       cases hm with
-      | head => exact (sp.later p hp hi).1
-      | tail _ hm => exact hc s' hm p hp
+      | head => exact (sp.later hi).1
+      | tail _ hm => exact hc s' hm
 
 /-- the whole array: every protected header agrees with the final message flag -/
 theorem parseSigs_zero (o : Oracle) (l : List Wire) (nb : Bool) (ss : List Signature) (nb' : Bool)
     (h : (parseSigs 0 nb l).run o = .ok (ss, nb')) :
-    (∀ s ∈ ss, ProtDecoded o s) ∧ (∀ s ∈ ss, ∀ p, s.prot = some p → p.nb64 = nb') ∧
+    (∀ s ∈ ss, ProtDecoded o s) ∧ (∀ s ∈ ss, s.nb64 = nb') ∧
     Zip2 (fun w s => ∃ i nb nb', SigParsed o i nb w s nb') l ss := by
   cases l with
   | nil =>
@@ -194,10 +191,10 @@ theorem parseSigs_zero (o : Oracle) (l : List Wire) (nb : Bool) (ss : List Signa
       cases hm with
       | head => exact sp.decoded
       | tail _ hm => exact hd s' hm
-    · intro s' hm p hp
+    · intro s' hm
       cases hm with
-      | head => exact (sp.first p hp rfl).symm
-      | tail _ hm => exact hc s' hm p hp
+      | head => exact (sp.first rfl).symm
+      | tail _ hm => exact hc s' hm
 
 /-- the array of signature objects the JSON parser iterates over: `signatures` itself, or the
     single synthetic element built from the flattened members -/
@@ -221,7 +218,7 @@ theorem parseJSON_ok (o : Oracle) (d : Bytes) (msg : Message)
       (msg.payload = match Wire.lookup "payload" raw.asObj with
         | some (.str p) => strBytes p | _ => []) ∧
       (∀ s ∈ msg.signatures, ProtDecoded o s) ∧
-      (∀ s ∈ msg.signatures, ∀ p, s.prot = some p → p.nb64 = msg.nb64) ∧
+      (∀ s ∈ msg.signatures, s.nb64 = msg.nb64) ∧
       ∃ elems, sigElems raw.asObj = some elems ∧
         Zip2 (fun w s => ∃ i nb nb', SigParsed o i nb w s nb') elems msg.signatures := by
   unfold parseJSON at hp
